@@ -128,7 +128,7 @@ def run(pid):
     # partition length must be refused, whatever the bytes that follow look like (PartitionLayout.RfcLayout)
     rp = os.path.join(wd, "trace_rawres.ndjson")
     rawn = run_drive("residuals", {"out": rp, "raw_max_bs": 40 if t == "quick" else 160, "sizes": [], "maxpos": []}, wd, tag="rawres")["runs"]
-    trc = write_text(os.path.join(wd, "Trace_Residuals.cfg"), "CONSTANTS\n MaxBs = 0\n MaxOrder = 0\n MaxPoOpt = 0\n MaxPartitions = 64\n Defects = {}\n"
+    trc = write_text(os.path.join(wd, "Trace_Residuals.cfg"), "CONSTANTS\n MaxBs = 0\n MaxOrder = 0\n MaxPoOpt = 0\n MaxPartitions = 64\n Defects = {}\n BigBs = {}\n"
                      "SPECIFICATION Spec\nPOSTCONDITION Post\nCHECK_DEADLOCK FALSE\n")
     tr = tlc_trace(os.path.join(SPEC, "Trace_Residuals.tla"), trc, rp, wd)
     rawrecs = None
